@@ -22,7 +22,26 @@ def build():
 }
 }
 ''')
-    U.raw(open(__file__.replace('units/synx.py', 'contracts/synx.prelude2.rs')).read())
+    # SyntaxError is the real tuple struct of syntax_error.rs (its derives are dropped: no verified body uses them)
+    import re as _re, os as _os
+    from vlib.unit import REPO as _REPO
+    _se = open(_os.path.join(_REPO, 'crates/oq3_syntax/src/syntax_error.rs')).read()
+    _m = _re.search(r'pub struct SyntaxError\(([^)]*)\);', _se)
+    _fields = [t.strip() for t in _m.group(1).split(',')] if _m else ['String', 'TextRange']
+    U.raw(open(__file__.replace('units/synx.py', 'contracts/synx.prelude2.rs')).read().replace(
+        '@@SYNTAX_ERROR_STRUCT@@', 'pub struct SyntaxError(%s);      // syntax_error.rs (fields made visible to specifications)' % ', '.join('pub ' + t for t in _fields)))
+    se = U.file('crates/oq3_syntax/src/syntax_error.rs')
+    se.impl('SyntaxError', [
+        ('with_range', dict(ret='r', props=P, mut_self=True, spec='ensures r.1 == range, r.0 == self.0,')),
+        ('range', dict(ret='r', props=P, spec='ensures r == self.1,                 //@C12:range-of-the-diagnostic')),
+    ])
+    # source_file.rs: the reporting interface hands out the diagnostic's own range
+    sf = U.file('crates/oq3_source_file/src/source_file.rs')
+    sf.item('trait', 'ErrorTrait')
+    sf.impl('ErrorTrait for oq3_syntax::SyntaxError', [
+        ('message', dict(props=P, trusted=True, note='&str -> String (to_string)')),
+        ('range', dict(ret='r', props=P, spec='ensures r == self.1,                 //@C12:reported-range-is-the-range-of-the-diagnostic')),
+    ])
     f = U.file(PARSING)
     SUB = [('D13', 'oq3_parser::', 'oq3_parser::')]
 
